@@ -127,3 +127,95 @@ def text_of(j):
 
 def count(forest):
     return sum(1 + (count(n["ch"]) if n["t"] == "el" else 0) for n in forest)
+
+
+# ---------------------------------------------------------------------------
+# `|` alternatives in nested merges.  One merge step is not transitive through alternatives (a|b merges into a, b
+# into a|b, yet b does not merge into a), so the ORDER in which the collapser merges -- the children of an element among
+# themselves first, then the element into its predecessor, then its children against the predecessor's last child --
+# is observable only on forests that combine alternatives (in both orders), at least three names and two levels.
+
+ALT_NAMES = [["a"], ["b"], ["c"], ["a", "b"], ["b", "a"], ["a", "c"], ["c", "a"], ["b", "c"], ["c", "b"]]
+
+
+def alt_neighbourhoods():
+    """exhaustive two-level merge neighbourhoods  [P1[L], P2[c1, c2]]  over three names with alternatives in both
+    orders: L's first name is `a` (the rest follows by renaming), c1 and c2 range over all nine name lists x fresh;
+    P2 merges into P1 by its first name / by a non-first alternative / not at all (fresh) / with a separator.
+    Every inner element holds its own letter, so that where a text ends up is visible."""
+    out = []
+    parents = [(T(["d"]), T(["d"])), (T(["e"]), T(["d", "e"])), (T(["d"]), T(["d"], c=False)), (T(["d"]), T(["d"], sep="-"))]
+    for p1, p2 in parents:
+        for ln in (["a"], ["a", "b"]):
+            for n1 in ALT_NAMES:
+                for f1 in (True, False):
+                    for n2 in ALT_NAMES:
+                        for f2 in (True, False):
+                            out.append([el(p1, [el(T(ln), [{"t": "text", "v": "x"}])]),
+                                        el(p2, [el(T(n1, c=f1), [{"t": "text", "v": "y"}]), el(T(n2, c=f2), [{"t": "text", "v": "z"}])])])
+    return out
+
+
+WS_TEXTS = [" ", "  ", "\n", "\t", " \n ", " ", ""]
+
+
+def random_forest_alts(rng, max_nodes=30, depth=4):
+    """random forests over a pool of two to four names per forest (so that names collide all the time), with `|`
+    alternatives in any order, few attributes, and white-space-only / empty text nodes next to and between elements
+    that would merge if they were adjacent.  A new element is biased towards the element it could merge into: the
+    previous sibling, the element before a white-space text, or (for a first child) the last child of its parent's
+    previous sibling -- by the same first name, or by carrying that element's name as a NON-first alternative."""
+    pool = rng.sample(["ul", "ol", "div", "p", "li", "span", "em"], rng.choice([2, 3, 3, 4]))
+    budget = [rng.randint(2, max_nodes)]
+    p_attr = rng.choice([0.0, 0.0, 0.15])
+    p_sep = rng.choice([0.0, 0.1, 0.25])
+
+    def tag(target):
+        names = rng.sample(pool, rng.choice([1, 1, 1, 2, 2, 3]) if len(pool) > 2 else rng.choice([1, 1, 2]))
+        attrs = [["k", rng.choice(["v", "w"])]] if rng.random() < p_attr else []
+        if target is not None and rng.random() < 0.75:
+            tn = target["names"][0]
+            r = rng.random()
+            if r < 0.5:
+                names = [tn] + [n for n in names if n != tn][:rng.choice([0, 0, 1])]
+            elif r < 0.95:
+                others = [n for n in pool if n != tn]
+                names = [rng.choice(others)] + [n for n in names[1:] if n != tn]
+                names = list(dict.fromkeys(names))
+                names.insert(rng.randint(1, len(names)), tn)
+            attrs = [list(a) for a in target["attrs"]]
+        return T(names, attrs, rng.random() < 0.85, rng.choice([None, "-", "", "\n"]) if rng.random() < p_sep else None)
+
+    def text():
+        return {"t": "text", "v": rng.choice(WS_TEXTS) if rng.random() < 0.5 else rng.choice(["x", "y", " z", "w "])}
+
+    def forest(d, outer):
+        """outer: the element a first child could end up next to (last child of the parent's previous sibling)"""
+        out = []
+        n = rng.choice([1, 2, 2, 3, 3, 4]) if d else rng.choice([2, 2, 3, 4, 6])
+        for _ in range(n):
+            if budget[0] <= 0:
+                break
+            budget[0] -= 1
+            r = rng.random()
+            if r < (0.3 if d else 0.15):
+                out.append(text())
+            elif r < (0.33 if d else 0.18):
+                out.append({"t": "fw"})
+            else:
+                els = [x for x in out if x["t"] == "el"]
+                if out and out[-1]["t"] == "el":
+                    target = out[-1]
+                elif out and els and out[-1]["t"] == "text" and not out[-1]["v"].strip():
+                    target = els[-1]            # across a white-space-only text node: must NOT merge
+                elif not out:
+                    target = outer
+                else:
+                    target = None
+                t = tag(target)
+                prev_last = None
+                if out and out[-1]["t"] == "el" and out[-1]["ch"] and out[-1]["ch"][-1]["t"] == "el":
+                    prev_last = out[-1]["ch"][-1]
+                out.append(el(t, forest(d + 1, prev_last) if d < depth and rng.random() < 0.85 else []))
+        return out
+    return forest(0, None)
